@@ -23,6 +23,10 @@ CHECKS = {
             "meaning-to-spellings generation (exhaustive stations/prefixes/ports + Hypothesis), oracle = field semantics via stdlib ipaddress, print/parse round trip, equivalence-relation and hash checks over pools of near-miss meanings",
             "Addresses are generated from their meaning outward into every documented spelling; each spelling must yield exactly the type, network and octets (and, for IP forms, the subnet/host/broadcast values computed by the stdlib ipaddress module), print/parse must round-trip, pools of equivalent spellings must be pairwise equal with equal hashes and address one dict slot while near-miss meanings stay distinct; out-of-range networks/stations and garbage strings must raise. All 256 stations, range-edge networks and all 33 prefixes x port boundaries are enumerated.",
             "Route suffixes and route-aware equality are outside the statement and not generated; IPv4 sample addresses are boundary + random, not exhaustive."),
+    "C02": ("exploration",
+            "exhaustive short octet strings and bracket sequences + Hypothesis tag lists / mutated encodings, differential against an independent clause-20.2.1 framer and a bracket reference model",
+            "Tag lists over the class x number x length-escape cross product are encoded and compared with an independent framer, decoded back and compared field by field; every octet string <=2 (<=3 thorough) and Hypothesis random/mutated strings must yield a list or InvalidTag (watchdog for non-termination), agree with the reference framer tag by tag (over-read / mis-framing shows as disagreement) and be a re-encode fixpoint; TagList.get_context and Any.decode are compared with a reference bracket model on all symbol sequences <=5 (<=6 thorough) and generated nestings to depth 4.",
+            "Trusts bpverif/ref/asn1.py; framing-neutral leniencies (LVT 6/7 without class bit, boolean LVT>1, number 255, non-canonical length forms) are shared by reference and library; closing tags with a different number than their opening tag accept either verdict."),
 }
 
 NOT_YET = {}
